@@ -47,10 +47,11 @@ def merge_model(child: Model, parent: Model) -> Model:
         parent_by_name.update(child_by_name)
         merged_data[field] = list(parent_by_name.values())
 
-    # Override scalar fields with child values
-    for field in ["table", "sql", "description", "primary_key"]:
-        if field in child_data:
-            merged_data[field] = child_data[field]
+    # Override every other field the child sets explicitly (table, sql, primary_key, description,
+    # default_time_dimension, default_grain, pre_aggregations, ...) with the child's value
+    for field, value in child_data.items():
+        if field not in ("dimensions", "metrics", "relationships", "segments", "name"):
+            merged_data[field] = value
 
     # Keep child's name
     merged_data["name"] = child.name
